@@ -1,9 +1,387 @@
 """Per-property run specifications for /verif/check: build profiles, extra legs, evidence texts."""
+import json
+import os
+import subprocess
+import time
+
+# ---------------------------------------------------------------------------------------------
+# helpers
+
+
+def _run(cmd, cwd, env=None, timeout=None):
+    try:
+        p = subprocess.run(cmd, cwd=cwd, env=env, stdout=subprocess.PIPE, stderr=subprocess.STDOUT, text=True, timeout=timeout, errors="replace")
+        return p.returncode, p.stdout
+    except subprocess.TimeoutExpired as e:
+        out = e.stdout or ""
+        if isinstance(out, bytes):
+            out = out.decode("utf-8", "replace")
+        return "timeout", out
+
+
+def _abnormal(rc):
+    return rc == "timeout" or (isinstance(rc, int) and (rc < 0 or rc in (101, 134, 139)))
+
+
+# ---------------------------------------------------------------------------------------------
+# C03: both profiles under a supervisor (abort / hang bisection), Miri, valgrind
+
+
+def _c03_run_range(binary, tier, seed, scale, stream, a, b, out, timeout, verif):
+    cmd = [binary, "run", "C03", "--tier", tier, "--seed", str(seed), "--range", "%s:%d:%d" % (stream, a, b), "--out", out]
+    if scale:
+        cmd += ["--scale", scale]
+    if os.path.exists(out):
+        os.remove(out)
+    rc, txt = _run(cmd, verif, timeout=timeout)
+    return rc, txt
+
+
+def _c03_bisect(binary, tier, seed, scale, stream, n, logs, verif, profile):
+    """Find one input in [0, n) of the stream whose processing kills or hangs the worker process."""
+    lo, hi = 0, n
+    out = os.path.join(logs, "C03.bisect.json")
+    while hi - lo > 1:
+        mid = (lo + hi) // 2
+        rc, _ = _c03_run_range(binary, tier, seed, scale, stream, lo, mid, out, 120, verif)
+        if _abnormal(rc):
+            hi = mid
+        else:
+            lo = mid
+    # isolated re-run rule: three times, 30 s each
+    kinds = []
+    for _ in range(3):
+        rc, txt = _c03_run_range(binary, tier, seed, scale, stream, lo, lo + 1, out, 30, verif)
+        kinds.append(rc)
+    if all(_abnormal(k) for k in kinds):
+        kind = "hang" if all(k == "timeout" for k in kinds) else "abort"
+        return {"sig": "C03:%s:%s" % (kind, stream), "what": "worker process %s on input %s:%d in the %s build (exit %s): %s" % ("did not terminate within 3 x 30 s" if kind == "hang" else "died", stream, lo, profile, kinds, txt[-300:].replace("\n", " ")),
+                "case": "%s:%d" % (stream, lo), "count": 1, "detail": {"profile": profile}}
+    return None
+
+
+def leg_c03_profiles(pid, tier, seed, h):
+    results, errs = [], []
+    for profile in ("release", "debug"):
+        binary, _ = h["build"](profile)
+        out = os.path.join(h["logs"], "C03.%s.%s.json" % (profile, tier))
+        cmd = [binary, "run", "C03", "--tier", tier, "--seed", str(seed), "--out", out]
+        if h["scale"]:
+            cmd += ["--scale", h["scale"]]
+        if os.path.exists(out):
+            os.remove(out)
+        rc, txt = _run(cmd, h["verif"], timeout=3600)
+        if rc == 0 and os.path.exists(out):
+            res = json.load(open(out))
+            res["leg"] = "profile"
+            res["same_space"] = profile == "debug"  # same inputs as the release run
+            results.append(res)
+            continue
+        if _abnormal(rc):
+            # abort / stack overflow / hang: find the input
+            rc2, streams = _run([binary, "streams", "C03", "--tier", tier] + (["--scale", h["scale"]] if h["scale"] else []), h["verif"])
+            found = None
+            for line in streams.split("\n"):
+                parts = line.split()
+                if len(parts) != 2:
+                    continue
+                s, n = parts[0], int(parts[1])
+                rc3, _ = _c03_run_range(binary, tier, seed, h["scale"], s, 0, n, out, 1800, h["verif"])
+                if _abnormal(rc3):
+                    found = _c03_bisect(binary, tier, seed, h["scale"], s, n, h["logs"], h["verif"], profile)
+                    if found:
+                        break
+            if found:
+                results.append({"property_id": "C03", "profile": profile, "leg": "supervisor", "evaluations": 0, "distinct_nontrivial": 0, "violations": [found], "counters": {}, "floors": [], "samples": []})
+            else:
+                errs.append("C03 %s worker exited abnormally (%s) but no single input reproduces it 3 times: %s" % (profile, rc, txt[-300:]))
+        else:
+            errs.append("C03 %s run failed: exit %s %s" % (profile, rc, txt[-500:]))
+    return results, errs
+
+
+def leg_c03_miri(pid, tier, seed, h):
+    """Miri interprets the multi-byte-heavy subset (winnow's unsafe slicing on char boundaries)."""
+    shards = 16
+    per = 8 if tier == "quick" else 60
+    env = h["env"]()
+    env["MIRIFLAGS"] = "-Zmiri-disable-isolation"
+    # build once (serialises on the cargo lock otherwise), then run the shards in parallel
+    rc, txt = _run(["cargo", "+nightly", "miri", "run", "--offline", "--quiet", "--", "streams", "C03"], h["harness"], env=env, timeout=1800)
+    if rc != 0:
+        return [], ["Miri leg could not be built/run: exit %s %s" % (rc, txt[-400:])]
+    procs = []
+    for k in range(shards):
+        out = os.path.join(h["logs"], "C03.miri.%d.json" % k)
+        if os.path.exists(out):
+            os.remove(out)
+        cmd = ["cargo", "+nightly", "miri", "run", "--offline", "--quiet", "--", "run", "C03", "--seed", str(seed), "--threads", "1", "--range", "multibyte:%d:%d" % (k * per, (k + 1) * per), "--out", out]
+        procs.append((k, out, subprocess.Popen(cmd, cwd=h["harness"], env=env, stdout=subprocess.PIPE, stderr=subprocess.STDOUT, text=True, errors="replace")))
+    results, errs = [], []
+    ops = 0
+    viol = []
+    for k, out, p in procs:
+        try:
+            txt, _ = p.communicate(timeout=3000)
+        except subprocess.TimeoutExpired:
+            p.kill()
+            errs.append("Miri shard %d exceeded the watchdog" % k)
+            continue
+        if p.returncode == 0 and os.path.exists(out):
+            r = json.load(open(out))
+            ops += r.get("evaluations", 0)
+            for v in r.get("violations", []):
+                v["sig"] = v["sig"]  # panics found under Miri are the same panics
+                viol.append(v)
+        elif "Undefined Behavior" in txt or "error: unsupported operation" in txt or "data race" in txt.lower():
+            first = [l for l in txt.split("\n") if "error" in l][:1]
+            viol.append({"sig": "C03:miri-ub", "what": "Miri reported: %s (shard %d, inputs multibyte:%d..%d)" % (" ".join(first)[:300], k, k * per, (k + 1) * per), "case": "multibyte:%d" % (k * per), "count": 1, "detail": {"log": txt[-1500:]}})
+        else:
+            errs.append("Miri shard %d failed without a UB report: exit %s %s" % (k, p.returncode, txt[-300:]))
+    results.append({"property_id": "C03", "profile": "miri", "leg": "miri", "evaluations": ops, "distinct_nontrivial": 0, "violations": viol, "counters": {"miri_ops_interpreted": ops, "miri_shards": shards}, "floors": [{"name": "Miri interpreted inputs", "ok": ops > 0}], "samples": []})
+    return results, errs
+
+
+def leg_c03_valgrind(pid, tier, seed, h):
+    if tier != "thorough":
+        return [], []
+    binary, _ = h["build"]("release")
+    out = os.path.join(h["logs"], "C03.valgrind.json")
+    log = os.path.join(h["logs"], "C03.valgrind.log")
+    for f in (out, log):
+        if os.path.exists(f):
+            os.remove(f)
+    cmd = ["valgrind", "--tool=memcheck", "--error-exitcode=0", "--log-file=" + log, binary, "run", "C03", "--tier", "quick", "--seed", str(seed), "--scale", "0.06", "--threads", "4", "--out", out]
+    rc, txt = _run(cmd, h["verif"], timeout=3000)
+    if rc != 0 or not os.path.exists(out):
+        return [], ["valgrind leg failed: exit %s %s" % (rc, txt[-300:])]
+    r = json.load(open(out))
+    nerr = 0
+    for line in open(log, errors="replace"):
+        if "ERROR SUMMARY:" in line:
+            try:
+                nerr = int(line.split("ERROR SUMMARY:")[1].split()[0])
+            except Exception:
+                pass
+    viol = []
+    if nerr:
+        viol.append({"sig": "C03:memcheck", "what": "valgrind memcheck reported %d errors (see %s)" % (nerr, log), "case": "", "count": nerr, "detail": {}})
+    return [{"property_id": "C03", "profile": "valgrind", "leg": "valgrind", "evaluations": r.get("evaluations", 0), "distinct_nontrivial": 0, "violations": viol, "counters": {"memcheck_inputs": r.get("evaluations", 0), "memcheck_errors": nerr}, "floors": [], "samples": []}], []
+
+
+# ---------------------------------------------------------------------------------------------
+# C15: fresh processes (fresh hash seeds) must agree
+
+
+def leg_c15_xproc(pid, tier, seed, h):
+    binary, _ = h["build"]("release")
+    nproc = 4 if tier == "quick" else 16
+    procs = []
+    for k in range(nproc):
+        out = os.path.join(h["logs"], "C15.digest.%d.txt" % k)
+        if os.path.exists(out):
+            os.remove(out)
+        cmd = [binary, "digest", "C15", "--tier", tier, "--seed", str(seed), "--out", out]
+        if h["scale"]:
+            cmd += ["--scale", h["scale"]]
+        procs.append((out, subprocess.Popen(cmd, cwd=h["verif"], stdout=subprocess.PIPE, stderr=subprocess.STDOUT, text=True)))
+    files = []
+    for out, p in procs:
+        p.communicate(timeout=1800)
+        if p.returncode != 0 or not os.path.exists(out):
+            return [], ["C15 digest process failed (exit %s)" % p.returncode]
+        files.append(open(out).read().split("\n"))
+    base = files[0]
+    viol = []
+    heavy = 0
+    for i, line in enumerate(base):
+        if not line:
+            continue
+        if int(line.split()[2]) >= 3:
+            heavy += 1
+        for k in range(1, nproc):
+            if i >= len(files[k]) or files[k][i] != line:
+                viol.append({"sig": "C15:cross-process", "what": "process 0 and process %d disagree on %s (digest of tree, program and table)" % (k, line.split()[0]), "case": line.split()[0], "count": 1, "detail": {"p0": line, "pk": files[k][i] if i < len(files[k]) else None}})
+                break
+        if len(viol) >= 3:
+            break
+    n = len([l for l in base if l])
+    return [{"property_id": "C15", "profile": "release", "leg": "xproc", "evaluations": n * nproc, "distinct_nontrivial": heavy, "violations": viol,
+             "counters": {"xproc_processes": nproc, "xproc_expressions": n}, "floors": [{"name": "cross-process digests compared", "ok": n > 50}],
+             "samples": [{"cross_process": "%d expressions digested in %d fresh processes" % (n, nproc), "first_digest_line": base[0] if base else ""}]}], []
+
+
+# ---------------------------------------------------------------------------------------------
+# C17: the same corpus through a debug and a release build
+
+
+def leg_c17_diff(pid, tier, seed, h):
+    outs = {}
+    bins = {}
+    for profile in ("release", "debug"):
+        binary, _ = h["build"](profile)
+        bins[profile] = binary
+        out = os.path.join(h["logs"], "C17.digest.%s.txt" % profile)
+        if os.path.exists(out):
+            os.remove(out)
+        cmd = [binary, "digest", "C17", "--tier", tier, "--seed", str(seed), "--out", out]
+        if h["scale"]:
+            cmd += ["--scale", h["scale"]]
+        rc, txt = _run(cmd, h["verif"], timeout=3600)
+        if rc != 0 or not os.path.exists(out):
+            return [], ["C17 digest in profile %s failed: exit %s %s" % (profile, rc, txt[-400:])]
+        outs[profile] = open(out).read().split("\n")
+    rel, dbg = outs["release"], outs["debug"]
+    viol = []
+    hist = {"release": {}, "debug": {}}
+    reach = 0
+    per_sig = {}
+    n = 0
+    for i, line in enumerate(rel):
+        if not line:
+            continue
+        n += 1
+        parts = line.split()
+        hist["release"][parts[2]] = hist["release"].get(parts[2], 0) + 1
+        if parts[2] in ("K", "C"):
+            reach += 1
+        dl = dbg[i] if i < len(dbg) else ""
+        if dl:
+            dk = dl.split()[2]
+            hist["debug"][dk] = hist["debug"].get(dk, 0) + 1
+        if dl != line:
+            case = parts[0]
+            recs = {}
+            for profile in ("release", "debug"):
+                rc, txt = _run([bins[profile], "record", "C17", "--seed", str(seed), "--case", case], h["verif"], timeout=120)
+                try:
+                    recs[profile] = json.loads(txt.strip().split("\n")[-1])
+                except Exception:
+                    recs[profile] = {"input": "?", "record": txt[-300:]}
+            r1, r2 = recs["release"]["record"], recs["debug"]["record"]
+            if r1 == r2:
+                continue  # clock tick between the two runs, normalised on re-run
+            if r1.startswith("Panic") != r2.startswith("Panic"):
+                p = r1 if r1.startswith("Panic") else r2
+                sig = "C17:panic-vs-value:%s:%s" % ("release" if r1.startswith("Panic") else "debug", p[6:40].split(":")[0].strip(") "))
+            elif r1.startswith("Panic"):
+                sig = "C17:different-panics"
+            else:
+                sig = "C17:value-differs"
+            per_sig[sig] = per_sig.get(sig, 0) + 1
+            if per_sig[sig] <= 3:
+                viol.append({"sig": sig, "what": "input %r: release gives %s ; debug gives %s" % (recs["release"]["input"][:200], r1[:240], r2[:240]), "case": case, "count": 1, "detail": {"input": recs["release"]["input"], "release": r1, "debug": r2}})
+            if sum(per_sig.values()) > 400:
+                break
+    for v in viol:
+        v["count"] = per_sig.get(v["sig"], 1)
+    samples = []
+    for line in rel[:3]:
+        if line:
+            samples.append({"case": line.split()[0], "digest_release": line.split()[1], "outcome_kind": line.split()[2]})
+    return [{"property_id": "C17", "profile": "both", "leg": "diff", "evaluations": n, "distinct_nontrivial": reach, "violations": viol,
+             "counters": {"records_compared": n, "outcome_histogram_release": hist["release"], "outcome_histogram_debug": hist["debug"]},
+             "floors": [{"name": "records compared", "ok": n > 1000}], "samples": samples}], []
+
+
+# ---------------------------------------------------------------------------------------------
+
+MODEL = True
 
 SPECS = {
+    "C01": {
+        "profiles": ["release"],
+        "rule": "every sequence of 1..L symbols over {( ) ! , -a -and -o -or -true '-name x' -print} (L=6 quick, 8 thorough; exhaustive), mutated sentences of length 9-40, random well-formed trees rendered with minimal/redundant parentheses; each compared with two agreeing spec-side recognisers and the spec-side tree. distinct_nontrivial = sentences using >= 2 operator levels (or implicit AND next to an explicit operator) plus non-sentences that have a non-empty sentence prefix.",
+    },
     "C02": {
         "profiles": ["release"],
         "uses_model": True,
         "rule": "cases: (a) every supported test/action kind alone with boundary-rich arguments, (b) every supported format directive alone/in pairs, (c) random operator trees of 1-8 leaves built through the public constructors, (d) the same through parse(); each compiled, executed in the model runtime on records directed at its constants (value-1/value/value+1 per unit, every type, every permission bit flip, matching / case-variant / near-miss names) plus random records, and compared with the reference evaluator (truth, ordered outputs per destination, stop request). distinct_nontrivial = distinct trees whose record set produced both a true and a false outcome.",
+    },
+    "C03": {
+        "profiles": [],
+        "legs": [leg_c03_profiles, leg_c03_miri, leg_c03_valgrind],
+        "rule": "inputs: grammar-aware generation (<= 4 KiB, nesting <= 64), prefixes and single-character mutations of valid inputs over a 40-character hostile alphabet, argument strings up to length 3 after every argument-taking keyword, numeric boundary strings, the lexer's undocumented words, multi-byte boundary inputs; each through parse -> Display / compile -> scheme x2 + io_map under catch_unwind, in a debug and a release build, the worker process supervised for aborts and hangs (bisected to one input; 3 x 30 s isolated re-run rule); the multi-byte subset under Miri; thorough adds valgrind memcheck. distinct_nontrivial = distinct inputs not rejected at the first token (reach an argument sub-parser or the compiler).",
+    },
+    "C04": {
+        "profiles": ["release"],
+        "uses_model": True,
+        "rule": "one string-carrying site at a time (-name/-iname/-path/-ipath, -pool, -xattr, both -xattr-match arguments, -fprint/-fprint0/-fprintf file names, literal text of -printf/-fprintf formats, strftime selector, device path) x every string of length 1..2 (quick) / 1..3 (thorough) over the 18-character alphabet {\" \\ ~ % ( ) ; # LF TAB U+0001 e-acute emoji a A * ? [} plus random strings to length 24; oracle: independent Guile reader accepts the program as the two expected forms, same structure as the benign twin, a literal decodes to exactly the string, executed behaviour agrees with the reference. distinct_nontrivial = distinct (site, string) pairs containing at least one of \" \\ ~ that reached the emitter.",
+    },
+    "C05": {
+        "profiles": ["release"],
+        "rule": "all 55 keywords x generated members of the keyword's argument language and systematic corruptions (junk appended/inserted/prepended, character dropped, argument emptied/dropped, keyword extended/truncated/glued, glued primaries, missing arguments) in 7 contexts; expected result for every text from the spec-side reference parser (vocabulary table); unspecified corners skipped. distinct_nontrivial = distinct inputs with a non-empty argument on which the two parsers agreed.",
+    },
+    "C06": {
+        "profiles": ["release"],
+        "rule": "each generated expression in canonical spelling vs N layout variants (separator per gap from {SP, SPSP, TAB, LF, CR, CRLF, SP TAB LF}, implicit/-a/-and, -o/-or, 0-2 redundant parenthesis layers with or without inner blanks, bare/'..'/\"..\" quoting of word-valued arguments, leading/trailing blanks); blank inputs vs -true. distinct_nontrivial = distinct variants differing from the canonical text in >= 2 axes.",
+    },
+    "C07": {
+        "profiles": ["release", "debug"],
+        "uses_model": True,
+        "rule": "every numeric primary (ids, counts, -links, -size x every unit, six time tests x every unit, -threads) x decimal strings at 0,1,2^31,2^32,2^63,2^64,floor(2^64/unit) +-1/2 with 0/1/7/30 leading zeros and signs, up to 40 digits, plus random values; in-range: tree number equals the u128 reference and the executed policy agrees at value-1/value/value+1; out-of-range: must be an error. Both build profiles. distinct_nontrivial = distinct (primary, numeric string) within 2 of a power-of-two boundary of the field or of 2^64/unit.",
+    },
+    "C08": {
+        "profiles": ["release"],
+        "uses_model": True,
+        "rule": "all 4096 octal values (3- and 4-digit spelling), all 315 single clauses, all 99225 ordered clause pairs, sampled 3-4 clause lists with shuffled/repeated letters; each under no prefix, '-', '/'; tree variant and bits vs reference chmod; executed policy on directed modes (all 4096 modes for a sample in thorough). distinct_nontrivial = clause lists where a later clause changes bits an earlier one set (pairs whose result differs from both single clauses) plus distinct multi-clause lists.",
+    },
+    "C09": {
+        "profiles": ["release"],
+        "uses_model": True,
+        "rule": "every tree of 1..N nodes (N=5 quick, 8 thorough; exhaustive) over leaves {true,false,name a,print,quit,fprint f} and operators {!,and,or,list}, plus random larger trees and a text-route sample; executed on records named a and b and compared with the reference that adds the implicit print iff no action node exists. distinct_nontrivial = trees containing an action that is not the root and not the right-most leaf, plus action-free trees with Or/List at the root.",
+    },
+    "C10": {
+        "profiles": ["release"],
+        "uses_model": True,
+        "rule": "all multisets of up to 3 (quick) / 4 (thorough) actions from a pool of 26 (every output action x files a,b,c x 4 formats), random multisets up to 6, and chains with 100-300 destinations; placed in trees where every action runs; checked: mode rule vs io_map() presence, every byte inside a frame, tag -> table entry = (destination, terminator) of the producing action, table injective and complete, plain output lines. distinct_nontrivial = action multisets containing two actions that agree in exactly one of (destination, terminator).",
+    },
+    "C11": {
+        "profiles": ["release"],
+        "uses_model": True,
+        "rule": "chains in which every test and action runs, with 0..60 (quick) / 0..300 (thorough) matcher/printer requests in random first-occurrence order, deliberate repeats, case-only differences, literal/glob pairs, same file with different terminators, both output modes; random trees; text route. Monitors: scope analysis of the read program (bound once, before use, no capture), behaviour vs reference on distinguishing file names, run-time count of distinct matcher/printer procedure objects vs distinct requests. distinct_nontrivial = programs with >= 2 resources of one kind and a deliberate repeat or near-duplicate.",
+    },
+    "C12": {
+        "profiles": ["release", "debug"],
+        "uses_model": True,
+        "rule": "every unsupported construct alone (13 tests, 3 actions, 7 format directives, \\c, positional-option node, option node) and random trees over the full vocabulary with 0..3 unsupported constructs at random positions incl. dead branches, under '!', and in non-first position of format strings; constructor and text route; both profiles. Oracle: compile is Err and the message names a construct iff one is present; supported trees compile and execute without an unbound identifier. distinct_nontrivial = trees whose unsupported construct is not at the root.",
+    },
+    "C13": {
+        "profiles": ["release"],
+        "uses_model": True,
+        "rule": "random option-free expressions with 0..4 options (-depth, -threads N, -maxdepth N, -mindepth N; repeated with different N) inserted at random chunk boundaries (front, middle, inside parentheses, after '!', end); expected options/tree from the spec-side parser; no option node in the tree; thread count observed as the fifth argument lipe-scan receives in the model runtime. distinct_nontrivial = inputs with an option outside the leading run or a repeated option with a different value.",
+    },
+    "C14": {
+        "profiles": ["release"],
+        "rule": "-printf '<s>' for every string of length 1..4 (quick) / 1..5 (thorough) over {% \\ { } : A p n q f c 0 1 7 8 @} (exhaustive), every documented directive and escape singly and in ordered pairs, random strings to length 60; element list vs a hand-written reference scanner; no empty / adjacent literals. distinct_nontrivial = strings containing '%' or '\\' followed by at least one more character.",
+    },
+    "C15": {
+        "profiles": ["release"],
+        "legs": [leg_c15_xproc],
+        "rule": "resource-heavy random expressions: parsed twice; compiled 5 (quick) / 10 (thorough) times interleaved with unrelated compilations (byte-identical text, equal table; clock tokens normalised for time tests); digests compared across 4 / 16 fresh processes; every integer token >= 10^9 inside the clock window of its compile call, with a re-compile after a 1.1 s sleep for a sample. distinct_nontrivial = distinct expressions with >= 3 resources or a time test.",
+    },
+    "C16": {
+        "profiles": ["release"],
+        "uses_model": True,
+        "rule": "programs with 1..3 printers (framed and plain, incl. print-relative-path / print-file-fid) x 2..3 logical scanner threads x 1..2 records each (+ stress: 6 printers, 4 threads x 8 records): the emitted text is executed in the model runtime, each thread's lock/write/unlock steps recorded, and interleavings explored by exhaustive DFS within a budget, then random + priority schedules until no new interleaving for 200 schedules; monitors: lockset (Eraser), frame/line decoder at quiescence with per-thread order, deadlock. distinct_nontrivial = distinct (configuration, interleaving) pairs in which a thread was blocked on a mutex or two threads' writes alternate on one port.",
+        "assumptions": ["a display call is the atom of port output; a thread's step sequence does not depend on the schedule (policies read no shared mutable state)"],
+    },
+    "C17": {
+        "profiles": [],
+        "legs": [leg_c17_diff],
+        "rule": "the C03 corpus (8 streams) plus constructor-route trees incl. unsupported constructs and over-range sizes; one canonical record per input (ParseErr / Panic / CompileErr / Ok(options, tree, program x2, sorted table), clock normalised) from a debug and from a release build of the same harness, diffed record by record. distinct_nontrivial = inputs that reach compile in the release build.",
+    },
+    "C18": {
+        "profiles": ["release"],
+        "rule": "every argument-taking keyword x (argument missing at end of input / before ')', or an argument invalid from its first character for the keyword's class) after 0..3 valid primaries, inside parentheses, after '!', before 0..2 more primaries; unknown words at random positions. Message grammar: non-empty, names the keyword, quotes the offending word (empty pair when missing), quotes nothing that is not in the input. distinct_nontrivial = distinct failing inputs with at least one primary before the failing one whose message satisfied the grammar.",
+    },
+    "C19": {
+        "profiles": ["release"],
+        "rule": "random trees through the public constructors to depth 12+ incl. Precedence, nested List, option and positional nodes, every action kind, sparse trees where a single action decides; action() and complex_frames() vs own folds; unit tables and byte_size() vs constants / u128 products. distinct_nontrivial = trees of depth >= 3 whose answer is decided by a node off the left spine, plus size literals above 2^63 bytes.",
+    },
+    "C20": {
+        "profiles": ["release"],
+        "uses_model": True,
+        "rule": "random compiled expressions x histories scheme(p1), io_map, scheme(p2), scheme(p1), io_map, scheme(p2), scheme(p1) with paths from benign and hostile strings (quotes, backslashes, blanks, parentheses, newline, non-ASCII, 64 KiB); same path -> identical text; table unchanged; the two texts read back and differ in exactly one string leaf decoding to the paths; lipe-scan receives the path at run time. distinct_nontrivial = (expression, path pair) with a path containing a quote or backslash.",
     },
 }
